@@ -65,6 +65,19 @@ func hashHelper(expr Sexp) (hashcode int, isList bool, err error) {
 	return 0, false, fmt.Errorf("cannot hash type %T", expr)
 }
 
+// copyArrayKey copies an array key and the arrays inside it.
+func copyArrayKey(arr *SexpArray, depth int) *SexpArray {
+	cp := &SexpArray{Val: make([]Sexp, len(arr.Val)), Typ: arr.Typ, Env: arr.Env}
+	for i, x := range arr.Val {
+		if inner, isArr := x.(*SexpArray); isArr && depth < 100 {
+			cp.Val[i] = copyArrayKey(inner, depth+1)
+		} else {
+			cp.Val[i] = x
+		}
+	}
+	return cp
+}
+
 // hashArrayKey: the hash code of an array used as a key. Keys are
 // compared with ==, so the code must be equal for arrays that are ==:
 // an int, a char and a whole-number float of one value count alike.
@@ -484,6 +497,13 @@ func (hash *SexpHash) HashSet(key Sexp, val Sexp) error {
 		return fmt.Errorf("HashSet: val cannot be comment")
 	}
 	key = unwrapKey(key) // let single number keys work: h[6]=10
+	if arr, isArr := key.(*SexpArray); isArr {
+		// keep a copy: the caller may go on changing its array, and
+		// an entry whose key no longer matches its bucket can be
+		// found by nothing (hget, hpair, range and the printer all
+		// missed it, while keys and len still listed it).
+		key = copyArrayKey(arr, 0)
+	}
 	if sym, isSym := key.(*SexpSymbol); isSym && sym.isDot {
 		// HashGet reads a dotted symbol as a path into nested
 		// hashes, so an entry stored under one could never be
